@@ -5,6 +5,7 @@ import Holpy.C20.ProofsSem
 import Holpy.C20.ProofsTy
 import Holpy.C20.ProofsParse
 import Holpy.C20.ProofsParseCond
+import Holpy.C20.ProofsParseWf
 /-
 C20 — property theorems (helper lemmas: Proofs.lean, ProofsSem.lean, ProofsParse.lean).
 `Exec` is the big-step semantics of Proofs.lean, `holds s e` is `evalE s e = some (.bool true)`,
@@ -103,6 +104,26 @@ theorem print_parse_id (e : Expr) (h : wfC e = true) (hn : noNegConst e = true) 
 
 example : wfC (.bin .imp (.bin .imp (.bool true) (.bool true)) (.ite (.bool true) (.bool true) (.bool true))) = true ∧
     noNegConst (.bin .imp (.bin .imp (.bool true) (.bool true)) (.ite (.bool true) (.bool true) (.bool true))) = true := by decide
+
+/-- The hypothesis `wfC e` of the theorems above is not vacuous for what the code builds: every condition
+the grammar returns satisfies it (and `wfC` is decidable; the driver evaluates it on every generated
+condition, on every VC `compute_wp` produces and on every result of the real `cond_parser`). -/
+theorem parse_produces_wfC (ts : List Tok) (e : Expr) (h : parseCondToks ts = some e) : wfC e = true :=
+  parse_wfC h
+
+example : parseCondToks [.tilde, .lp, .id "a", .le, .num 3, .amp, .ktrue, .rp] =
+    some (.un .not (.bin .and (.bin .le (.var "a") (.int 3)) (.bool true))) := by decide
+
+/-- Hence: whatever condition the user enters, printing the parsed condition and parsing it again gives
+the same condition (up to the reading of negative constants, which the parser itself never produces). -/
+theorem reparse_of_parsed (ts : List Tok) (e : Expr) (h : parseCondToks ts = some e) :
+    parseCondToks (toks e) = some (normNeg e) :=
+  parse_toks e (parse_wfC h)
+
+example : parseCondToks [.id "a", .minus, .id "b", .minus, .id "c", .eqeq, .num 0] =
+      some (.bin .eq (.bin .sub (.var "a") (.bin .sub (.var "b") (.var "c"))) (.int 0)) ∧
+    parseCondToks (toks (.bin .eq (.bin .sub (.var "a") (.bin .sub (.var "b") (.var "c"))) (.int 0))) =
+      some (.bin .eq (.bin .sub (.var "a") (.bin .sub (.var "b") (.var "c"))) (.int 0)) := ⟨by decide, by decide⟩
 
 /-- The condition shown to the user, when read back, has the same value in every state as the
 condition computed. PARTIAL: stated on token sequences; the step from the printed string to the
